@@ -10,11 +10,12 @@
 //      5 rx(a: mode 0 async_receive_from / 1 async_receive / 2 wait_read + receive_from,
 //           b: buffer size kind, c: number of buffers, d: 0 one-shot / 1 keep reading)
 //      6 drain (non-blocking receive_from until would_block)   7 move-construct
-//      8 option(a: 0 IP_MTU_DISCOVER DO / 1 IP_MTU_DISCOVER DONT / 2 IP_DONTFRAGMENT 1 / 3 IP_DONTFRAGMENT 0 / 4 send_buffer_size b)
+//      8 option(a: 0 IP_MTU_DISCOVER DO / 1 IP_MTU_DISCOVER DONT / 2 IP_DONTFRAGMENT 1 / 3 IP_DONTFRAGMENT 0 / 4 send_buffer_size b / 5 broadcast / 6 unicast hops)
 //      9 re-open   10 destroy+create
 // Oracle: every accepted datagram gets a fate derived from the taps and a
 // reference registry (DESIGN.md §4 C08, appendix A.5).
 #include "simkit/world.hpp"
+#include <boost/asio/ip/unicast.hpp>
 
 #include <netinet/in.h>
 
@@ -406,11 +407,14 @@ Verdict run_case(Case const& c, Ctx& ctx)
 				}
 				case 8:
 				{
-					int const k = int(((a % 5) + 5) % 5);
+					int const k = int(((a % 7) + 7) % 7);
 					if (k == 0) { x.s->set_option(IntOption{IP_MTU_DISCOVER, IP_PMTUDISC_DO}, ec); x.df = true; }
 					else if (k == 1) { x.s->set_option(IntOption{IP_MTU_DISCOVER, IP_PMTUDISC_DONT}, ec); x.df = false; }
 					else if (k == 2) { x.s->set_option(IntOption{IP_DONTFRAGMENT, 1}, ec); x.df = true; }
 					else if (k == 3) { x.s->set_option(IntOption{IP_DONTFRAGMENT, 0}, ec); x.df = false; }
+					// options that have nothing to do with fragmentation must leave the don't-fragment state alone
+					else if (k == 5) x.s->set_option(boost::asio::socket_base::broadcast(true), ec);
+					else if (k == 6) x.s->set_option(boost::asio::ip::unicast::hops(7), ec);
 					else
 					{
 						int bytes = int(std::max(1000LL, std::min(4000000LL, b)));
@@ -590,7 +594,7 @@ rc::Gen<std::vector<Rec>> gen_snippet(bool c20)
 		std::vector<Rec> v{mkop(std::get<1>(t), std::get<0>(t))};
 		if (std::get<1>(t) != 7) { v.push_back(mkop(0, std::get<0>(t))); v.push_back(mkop(1, std::get<0>(t), std::get<2>(t), std::get<3>(t))); }
 		return v; });
-	auto opt = rc::gen::map(rc::gen::tuple(slot, kit::range(0, 4), kit::weighted({{1, 3000}, {1, 100000}, {1, 2000000}})), [](std::tuple<long long, long long, long long> t) {
+	auto opt = rc::gen::map(rc::gen::tuple(slot, kit::range(0, 6), kit::weighted({{1, 3000}, {1, 100000}, {1, 2000000}})), [](std::tuple<long long, long long, long long> t) {
 		return std::vector<Rec>{mkop(8, std::get<0>(t), std::get<1>(t), std::get<2>(t))}; });
 	auto adv = rc::gen::map(kit::weighted({{2, 1}, {3, 100}, {3, 5000}, {2, 60000}, {1, 1000000}}), [](long long us) { return std::vector<Rec>{mkadv(us)}; });
 	// the leak pattern: big datagrams, tiny buffers, a reader that keeps up
